@@ -18,3 +18,50 @@ pub fn neg(v: &[i64]) -> Vec<i64> {
 pub fn sizes(min: usize) -> Vec<usize> {
     (0..=10).map(|k| 1usize << k).filter(|&n| n >= min).collect()
 }
+
+/// Run `f` with a fixed ChaCha20 stream installed as the signer's RNG on this thread.
+pub fn with_stream<T>(stream: u64, f: impl FnOnce() -> T) -> T {
+    use rand::SeedableRng;
+    let rng = rand_chacha::ChaCha20Rng::seed_from_u64(0x5eed_0000_0000_0000 ^ stream);
+    falcon_rust::verif_hooks::install_rng(Box::new(crate::envrng::Bounded::new(rng, crate::envrng::SIGN_DRAW_LIMIT)));
+    let r = std::panic::catch_unwind(std::panic::AssertUnwindSafe(f));
+    falcon_rust::verif_hooks::uninstall_rng();
+    match r {
+        Ok(v) => v,
+        Err(e) => std::panic::resume_unwind(e),
+    }
+}
+
+/// Run `f` with the production generator (thread_rng) behind a draw budget, so that a signing loop
+/// that never terminates becomes a horizon panic instead of a hang.
+pub fn with_bounded_thread_rng<T>(f: impl FnOnce() -> T) -> T {
+    falcon_rust::verif_hooks::install_rng(Box::new(crate::envrng::Bounded::new(rand::thread_rng(), crate::envrng::SIGN_DRAW_LIMIT)));
+    let r = std::panic::catch_unwind(std::panic::AssertUnwindSafe(f));
+    falcon_rust::verif_hooks::uninstall_rng();
+    match r {
+        Ok(v) => v,
+        Err(e) => std::panic::resume_unwind(e),
+    }
+}
+
+/// quick / thorough seed windows of DESIGN.md section 3 (offset by VERIF_SEED * 4096)
+pub fn seed_window(n: usize, thorough: bool, verif_seed: u64) -> Vec<u64> {
+    let off = verif_seed.wrapping_mul(4096);
+    let mut v: Vec<u64> = match (n, thorough) {
+        (512, false) => (0..8).collect(),
+        (512, true) => (0..256).collect(),
+        (_, false) => (0..2).collect(),
+        (_, true) => (0..48).collect(),
+    };
+    for x in v.iter_mut() {
+        *x = x.wrapping_add(off);
+    }
+    // seeds on which key generation was found to leave the encodable range (defect D7); after the
+    // repair they exercise the retry
+    if n == 512 {
+        v.extend([785u64, 2261, 2907].iter().take(if thorough { 3 } else { 1 }));
+    } else {
+        v.extend([14u64, 633, 1031].iter().take(if thorough { 3 } else { 1 }));
+    }
+    v
+}
